@@ -31,6 +31,8 @@ type Stmt struct {
 	Post string
 	// rpc: send E to the first worker of chain Chain, receive the answer of its last worker into Var
 	Chain int
+	// if: optional simple statement in front of the condition (`if v = e; a == b {`): assign, inc or dec
+	Init *Stmt
 }
 
 type Var struct {
@@ -75,7 +77,10 @@ type Program struct {
 	UsesEq  bool
 	// features present (for counters and signatures)
 	HasFor, HasBreak, HasContinue, HasCall, HasShadow bool
-	HasGo, HasGoValArgs, HasChanBlock                 bool
+	HasGo, HasGoValArgs, HasChanBlock, HasIfInit      bool
+	// ChanBlockFirst: main starts with a block that declares (and releases) a channel before the channels
+	// handed to the workers are declared
+	ChanBlockFirst bool
 }
 
 type gen struct {
@@ -204,6 +209,14 @@ func (g *gen) stmts(n, depth int, inLoop bool) []Stmt {
 			out = append(out, s)
 		case k == 5 && depth > 0:
 			s := Stmt{Kind: "if", A: g.expr(1), B: g.expr(1)}
+			if g.t.Draw(4) == 1 {
+				in := Stmt{Kind: []string{"assign", "inc", "dec"}[g.t.Draw(3)], Var: g.t.Draw(len(g.vars))}
+				if in.Kind == "assign" {
+					in.E = g.expr(1)
+				}
+				s.Init = &in
+				g.p.HasIfInit = true
+			}
 			s.Then = g.stmts(1+g.t.Draw(2), depth-1, inLoop)
 			if g.t.Draw(2) == 1 {
 				s.Else = g.stmts(1+g.t.Draw(2), depth-1, inLoop)
@@ -327,6 +340,10 @@ func Generate(t *simrt.Tape) *Program {
 	if nw > 0 && t.Draw(3) == 1 {
 		p.ChanDeclRev = true
 	}
+	if nw > 0 && t.Draw(4) == 1 {
+		p.ChanBlockFirst = true
+		p.HasChanBlock = true
+	}
 	g.vars, g.nout, g.ncall, g.nchain = p.Vars, len(p.Outputs), nf, len(p.Chains)
 	p.Init = g.stmts(t.Draw(4), depth, false)
 	p.Loop = g.stmts(1+t.Draw(5), depth, false)
@@ -388,7 +405,18 @@ func (p *Program) stmtsSrc(b *strings.Builder, vars []Var, ss []Stmt, ind string
 			p.stmtsSrc(b, vars, s.Then, ind+"\t")
 			fmt.Fprintf(b, "%s}\n", ind)
 		case "if":
-			fmt.Fprintf(b, "%sif %s == %s {\n", ind, p.exprSrc(vars, s.A), p.exprSrc(vars, s.B))
+			init := ""
+			if s.Init != nil {
+				switch s.Init.Kind {
+				case "assign":
+					init = fmt.Sprintf("%s = %s; ", vars[s.Init.Var].Name, p.exprSrc(vars, s.Init.E))
+				case "inc":
+					init = vars[s.Init.Var].Name + "++; "
+				case "dec":
+					init = vars[s.Init.Var].Name + "--; "
+				}
+			}
+			fmt.Fprintf(b, "%sif %s%s == %s {\n", ind, init, p.exprSrc(vars, s.A), p.exprSrc(vars, s.B))
 			p.stmtsSrc(b, vars, s.Then, ind+"\t")
 			if s.Else != nil {
 				fmt.Fprintf(b, "%s} else {\n", ind)
@@ -454,6 +482,9 @@ func (p *Program) Source() string {
 	b.WriteString("func main() {\n")
 	for i := range p.Outputs {
 		fmt.Fprintf(&b, "\tvar out%d bondgo.Output\n", i)
+	}
+	if p.ChanBlockFirst {
+		fmt.Fprintf(&b, "\t{\n\t\tvar tc chan %s\n\t}\n", p.typ())
 	}
 	var chdecl []string
 	for c, ch := range p.Chains {
@@ -585,6 +616,9 @@ func (s *evalState) run(ss []Stmt) int {
 			}
 		case "if":
 			var sig int
+			if st.Init != nil {
+				s.run([]Stmt{*st.Init})
+			}
 			if s.expr(st.A) == s.expr(st.B) {
 				sig = s.run(st.Then)
 			} else {
@@ -692,6 +726,8 @@ func (p *Program) Features() []string {
 	add(p.HasGo, "goroutines")
 	add(p.HasGoValArgs, "goroutine-value-args")
 	add(p.HasChanBlock, "block-scoped-channel")
+	add(p.ChanBlockFirst, "channel-released-before-others-are-declared")
+	add(p.HasIfInit, "if-with-init")
 	add(p.ChanDeclRev, "channels-declared-in-another-order-than-passed")
 	add(!p.RegsOnly(), "memvars")
 	return f
